@@ -163,4 +163,13 @@ Proof.
   exact (VamRefusedMem.refused_same_memory c Ha v G o f v' code calls RB (VamRefusedMem.reachL_LBv c Ha v RL)).
 Qed.
 Print Assumptions C13_allocator_refused_same_memory.
+(* FINAL form (the model now follows the Go code when a vkMapMemory fails while BeginDefragPass commits a move:
+   the planner goes on to the next candidate): every defragmentation call returns success or an error - no panic,
+   no state without continuation - for ANY fault oracle, with no hypothesis on the state. *)
+Theorem C13_allocator_defrag_never_fails : forall c v run G o f v' run' r calls dr,
+  cfg_acct c -> VamKindThm.reachDK c v run G -> VamDefragThm.dop_ok v run o -> VamDefragBal.dop_bal G run o ->
+  VamKindThm.drun_exists run o -> Vam.dstep c v run o f = (v', run', r, calls, dr) ->
+  r <> RPanic /\ r <> RStuck.
+Proof. intros c v run G o f v' run' r calls dr Ha. exact (VamKindThm.dstep_never_fails_full c Ha v run G o f v' run' r calls dr). Qed.
+Print Assumptions C13_allocator_defrag_never_fails.
 End Allocator.
